@@ -287,6 +287,8 @@ pub fn write_dir(dir: &Path, files: &BTreeMap<String, Vec<u8>>) {
 pub struct Recovery {
     /// reads after the first and after a second recovery (a crash right after recovery's own create)
     pub reads: Vec<Vec<Result<Option<Vec<u8>>, String>>>,
+    /// reads after "set(a, post-crash); del(b)" through the recovered store and one more restart
+    pub post: Option<Vec<Result<Option<Vec<u8>>, String>>>,
     pub error: Option<String>,
     pub trace_violations: Vec<(String, String)>,
 }
@@ -308,6 +310,11 @@ fn recover_in_child_once(dir: &Path, cfg: Cfg, max_id_ever: Option<u64>, rounds:
     let out = in_child(
         move || {
             iohook::set_seed(Some(cfg.seed.wrapping_add(1000)));
+            // a pristine copy of the crash directory for the "life goes on" phase below
+            let dir_b = dir2.with_extension("b");
+            if rounds >= 2 {
+                write_dir(&dir_b, &list_dir(&dir2));
+            }
             iohook::rec_start(&dir2.to_string_lossy());
             let mut reads = vec![];
             let mut error: Option<String> = None;
@@ -349,6 +356,42 @@ fn recover_in_child_once(dir: &Path, cfg: Cfg, max_id_ever: Option<u64>, rounds:
                 }
             }
             let log = iohook::rec_stop();
+            // life goes on after a crash: write through the recovered store, restart once more, and
+            // read again (a recovery that looks right may still have prepared a trap, e.g. by taking
+            // an id that an orphan file of the crashed incarnation will later shadow)
+            let mut post: Option<Vec<Result<Option<Vec<u8>>, String>>> = None;
+            if rounds >= 2 && error.is_none() {
+                let r = std::panic::catch_unwind(std::panic::AssertUnwindSafe(|| -> Result<Vec<Result<Option<Vec<u8>>, String>>, String> {
+                    // the writes go through the FIRST incarnation after the crash
+                    {
+                        let kv = cfg.build(&dir_b).open().map_err(|e| format!("open: {}", e))?;
+                        let h = kv.get_handle();
+                        h.set(b(key_bytes(0)), b(b"post-crash".to_vec())).map_err(|e| format!("set after recovery: {}", e))?;
+                        h.del(b(key_bytes(1))).map_err(|e| format!("del after recovery: {}", e))?;
+                    }
+                    let kv = cfg.build(&dir_b).open().map_err(|e| format!("open: {}", e))?;
+                    let h = kv.get_handle();
+                    Ok(KEYS
+                        .iter()
+                        .map(|&k| {
+                            if h.verif_pool().0 == 0 {
+                                return Err("HANG: reader pool empty".to_string());
+                            }
+                            match std::panic::catch_unwind(std::panic::AssertUnwindSafe(|| h.get(b(key_bytes(k))))) {
+                                Ok(Ok(v)) => Ok(v.map(|x| x.to_vec())),
+                                Ok(Err(e)) => Err(format!("Err: {}", e)),
+                                Err(_) => Err("PANIC in get".to_string()),
+                            }
+                        })
+                        .collect())
+                }));
+                post = Some(match r {
+                    Ok(Ok(rd)) => rd,
+                    Ok(Err(e)) => vec![Err(e)],
+                    Err(_) => vec![Err("PANIC".to_string())],
+                });
+            }
+            rmrf(&dir_b);
             let mut tv = vec![];
             e1::check_trace_invariants(&log, max_id_ever, &mut tv);
             // recovery never rewrites existing files: its only mutating calls are creations
@@ -366,6 +409,7 @@ fn recover_in_child_once(dir: &Path, cfg: Cfg, max_id_ever: Option<u64>, rounds:
                 "reads": reads.iter().map(|rd| rd.iter().map(enc).collect::<Vec<_>>()).collect::<Vec<_>>(),
                 "error": error,
                 "tv": tv.iter().map(|(c, m, _)| json!([c, m])).collect::<Vec<_>>(),
+                "post": post.as_ref().map(|rd| rd.iter().map(enc).collect::<Vec<_>>()),
             }))
             .unwrap()
         },
@@ -386,6 +430,7 @@ fn recover_in_child_once(dir: &Path, cfg: Cfg, max_id_ever: Option<u64>, rounds:
             Ok(Recovery {
                 reads: v["reads"].as_array().map(|a| a.iter().map(|rd| rd.as_array().unwrap().iter().map(dec).collect()).collect()).unwrap_or_default(),
                 error: v["error"].as_str().map(|s| s.to_string()),
+                post: v["post"].as_array().map(|a| a.iter().map(dec).collect()),
                 trace_violations: v["tv"].as_array().map(|a| a.iter().map(|x| (x[0].as_str().unwrap().to_string(), x[1].as_str().unwrap().to_string())).collect()).unwrap_or_default(),
             })
         }
@@ -508,8 +553,14 @@ pub fn plan(mode: &str, tier: Tier) -> Plan {
         "power" => tier.pick(3, 4),
         "fault" => tier.pick(3, 4),
         "c14" => tier.pick(3, 4),
+        "space" => tier.pick(3, 4),
         _ => 3,
     };
+    if mode == "space" {
+        // C13 after a failed operation: every file is eligible (ALL), rollover at every entry / every third
+        let cfgs = vec![Cfg::new(0, Thr::All, 1), Cfg::new(60, Thr::All, 1)];
+        return Plan { alphabet: vec![Op::Set(0, 0), Op::Set(0, 1), Op::Set(1, 4), Op::Del(0), Op::Merge], depth, cfgs };
+    }
     Plan { alphabet: alphabet_full(), depth, cfgs }
 }
 
@@ -730,6 +781,14 @@ fn run_crash(cx: &mut Ctx, cfg: Cfg, word: &[Op], power: bool, byte_granular: bo
                             if let Some((c, m)) = judge_reads(rd, &acked, &infl) {
                                 v = Some((c, format!("{} (recovery round {})", m, round + 1)));
                                 break;
+                            }
+                        }
+                        if v.is_none() {
+                            if let Some(post) = &rv.post {
+                                let want: Vec<Result<Option<Vec<u8>>, String>> = vec![Ok(Some(b"post-crash".to_vec())), Ok(None), Ok(None)];
+                                if *post != want {
+                                    v = Some(("writes-after-recovery-lost".into(), format!("after recovery: set(a, post-crash), del(b), restart -> reads {:?}, expected [post-crash, nil, nil]", post.iter().map(|x| match x { Ok(Some(v)) => hex(v), Ok(None) => "nil".into(), Err(e) => format!("ERR {}", e) }).collect::<Vec<_>>())));
+                                }
                             }
                         }
                         v
@@ -959,6 +1018,78 @@ fn run_fault(cx: &mut Ctx, cfg: Cfg, word: &[Op], last_op_only: bool) {
     }
 }
 
+/// EXPERIMENT, NOT WIRED INTO ANY CHECK (DESIGN 0.4, seed C13d): C13 beyond fault-free histories —
+/// after ONE failed file-system call somewhere in the workload, a (fault-free) merge of every file
+/// must still leave exactly the live pairs on disk. This demands more than C13 states (its
+/// quantifier has no faults) and it raises an alarm on the unchanged tree (a merge whose copy fails
+/// leaves an output file without statistics record, which no later merge selects), so it was
+/// withdrawn as a check; it can be run by hand with pass name `e2:space`.
+fn run_space(cx: &mut Ctx, cfg: Cfg, word: &[Op]) {
+    let mut w2 = word.to_vec();
+    w2.push(Op::Merge);
+    w2.push(Op::Merge);
+    let base = record(cfg, &w2, &cx.live, None);
+    cx.sh.transitions += w2.len() as u64;
+    if base.open_failed.is_some() || base.results.iter().any(|r| !r.starts_with("ok")) {
+        return;
+    }
+    let first_begin = base.log.iter().position(|c| matches!(c, Call::Mark(m) if m == "begin:0")).unwrap_or(0);
+    let end_tag = format!("begin:{}", word.len());
+    let end = base.log.iter().position(|c| matches!(c, Call::Mark(m) if *m == end_tag)).unwrap_or(base.log.len());
+    let mut n = 0usize;
+    let mut positions: Vec<(usize, Call)> = vec![];
+    for (i, c) in base.log.iter().enumerate().skip(first_begin) {
+        if c.is_mutating() {
+            n += 1;
+            if i < end {
+                positions.push((n, c.clone()));
+            }
+        }
+    }
+    let size_of = |files: &BTreeMap<String, Vec<u8>>| -> u64 { files.iter().filter(|(n, _)| n.ends_with(".data")).map(|(_, b)| b.len() as u64).sum() };
+    for (pos, call) in positions {
+        let mut kinds = vec![FaultKind::Errno(libc::EIO)];
+        if let Call::Write { data, .. } = &call {
+            if data.len() > 1 {
+                kinds.push(FaultKind::Short(data.len() / 2));
+            }
+        }
+        for kind in kinds {
+            cx.sh.evaluations += 1;
+            let at = json!({"fault_at_mutating_call": pos, "call": call.short(), "kind": format!("{:?}", kind)});
+            let Ok(rec) = record_in_child(cfg, &w2, &cx.live, Some((pos, kind))) else { continue };
+            cx.sh.nontrivial.insert(fnv(format!("{:?}|{:?}|{}|{:?}", cfg, word, pos, kind).as_bytes()));
+            // judged only when both final merges succeeded and all reads are clean
+            let k = w2.len();
+            if rec.results.len() != k || !rec.results[k - 1].starts_with("ok") || !rec.results[k - 2].starts_with("ok") || rec.reads.len() != k {
+                cx.sh.outcome("final-merge-failed-or-run-incomplete".into());
+                continue;
+            }
+            let reads = &rec.reads[k - 1];
+            if reads.iter().any(|r| r.is_err()) {
+                continue;
+            }
+            let mut minimal = 0u64;
+            for (i, &key) in KEYS.iter().enumerate() {
+                if let Ok(Some(v)) = &reads[i] {
+                    minimal += crate::model::entry_size(&key_bytes(key), v);
+                }
+            }
+            let total = size_of(&rec.live_dir);
+            cx.sh.states.insert(fnv(format!("{}|{}|{:?}", total, minimal, rec.results).as_bytes()));
+            cx.sh.outcome(if total == minimal { "minimal".into() } else { "NOT-minimal".into() });
+            if total != minimal {
+                let files: Vec<(String, usize)> = rec.live_dir.iter().filter(|(n, b)| n.ends_with(".data") && !b.is_empty()).map(|(n, b)| (n.clone(), b.len())).collect();
+                cx.sh.violate(Violation {
+                    class: format!("{}:not-minimal-after-full-merge[after-a-failed-{}]", cx.prop, call.short().split(' ').next().unwrap_or("call")),
+                    msg: format!("data files hold {} bytes {:?}, the pairs the store reads need {} | {} then merge merge under {:?} | {}", total, files, minimal, show_word(word), cfg, at),
+                    case: case_json("space", &cfg, word, at.clone()),
+                });
+            }
+        }
+    }
+}
+
 /// Root-cause classes for single-fault violations.
 fn classify_fault(class: &str, word: &[Op], fault_op: Option<usize>, call: &Call) -> String {
     let op = fault_op.map(|i| word[i]);
@@ -1024,6 +1155,11 @@ pub fn worker(job: &Job) -> Shard {
                             run_fault(&mut cx, *cfg, w, w.len() < p.depth)
                         }
                     }
+                    "space" => {
+                        if w.len() == p.depth || (w.len() + 1 == p.depth) {
+                            run_space(&mut cx, *cfg, w)
+                        }
+                    }
                     m => panic!("unknown e2 mode {}", m),
                 }
                 cx.sh.count("workloads", 1);
@@ -1046,6 +1182,7 @@ pub fn replay(prop: &str, case: &Value) -> Vec<Violation> {
             "crash" => run_crash(&mut cx, cfg, &word, false, false),
             "power" => run_crash(&mut cx, cfg, &word, true, true),
             "fault" => run_fault(&mut cx, cfg, &word, false),
+            "space" => run_space(&mut cx, cfg, &word),
             _ => {}
         }
     }
@@ -1062,12 +1199,14 @@ pub fn report_meta(prop: &str, tier: Tier) -> (String, Value, Vec<String>) {
         "C03" => "crash",
         "C09" => "power",
         "C20" => "fault",
+        "C13" => "space",
         _ => "c14",
     };
     let p = plan(mode, tier);
     let nwords = words_upto(&p.alphabet, p.depth).len();
     let rule = match mode {
         "crash" | "c14" => format!("every workload word of length 0..={} over {:?} x {} configurations is executed on the real store with every mutating system call recorded; for every crash point inside the last operation of every word (so every prefix of every history is a crash point exactly once) the directory produced by exactly that prefix of calls is rebuilt, opened by the real recovery code in a forked child (twice: a crash right after recovery's own file creation), and every key is read; a case is distinct+non-trivial when an operation is in flight at the crash point (distinct by directory fingerprint). workloads={}", p.depth, p.alphabet.iter().map(|o| o.show()).collect::<Vec<_>>(), p.cfgs.len(), nwords * p.cfgs.len()),
+        "space" => format!("every workload word of length {}..{} over {:?} x {} configurations (every file eligible) with ONE failed create / write / fsync / unlink (EIO, short write) at every position, followed by two fault-free merges: the data files must then hold exactly the pairs the store reads. workloads={}", p.depth - 1, p.depth, p.alphabet.iter().map(|o| o.show()).collect::<Vec<_>>(), p.cfgs.len(), nwords * p.cfgs.len()),
         "power" => format!("as the crash enumeration, under sync=always, and for every crash point every per-file loss vector: each file independently keeps any length between its last fsync and its current length ({}); creations and removals are durable. workloads={}", if tier == Tier::Thorough { "every byte for tails up to 64 bytes, else every write boundary plus every byte of the first and last 40" } else { "the full product over files at write boundaries, plus every byte of every unsynced tail of up to 80 bytes one file at a time" }, nwords * p.cfgs.len()),
         _ => format!("every workload word of length {} (every fault position) and every shorter word (fault in its last operation) over {:?} x {} configurations; one fault per run at every individual create / write / fsync / unlink call with EIO, ENOSPC (writes, creates) and short writes; the rest of the workload runs after the fault, then the store is restarted. workloads={}", p.depth, p.alphabet.iter().map(|o| o.show()).collect::<Vec<_>>(), p.cfgs.len(), nwords * p.cfgs.len()),
     };
